@@ -80,7 +80,10 @@ Definition out_eqb (a b : out) : bool :=
 (* a case: the stack, the steps with the observed result of each, and the verdict of the harness's direct oracle
    (true = every observed result is what the contract prescribes, on the operations the contract speaks about) *)
 (* [c_psteps]: a provider-level scenario (OpenStore / SetStoreConfig / ... ) run on the in-memory provider itself *)
-Record case := { c_stack : stack; c_steps : list (hop * out); c_psteps : list (pop * pout); c_conj : bool; c_oracle : bool }.
+(* [c_keytags]: (key, class of the Key tag value the code wrote for it): two keys are in one class iff the code gave them
+   the same tag value *)
+Record case := { c_stack : stack; c_steps : list (hop * out); c_psteps : list (pop * pout); c_keytags : list (N * N);
+                 c_conj : bool; c_oracle : bool }.
 
 (* the contract is silent where a store does not support "&&" (optional) : those steps are skipped by both oracles *)
 Definition in_contract (conj : bool) (o : op) : bool :=
@@ -119,10 +122,17 @@ Fixpoint check_pmodel (pst : pstate -> pop -> pstate * pout) (p : pstate) (steps
   | (o, x) :: r => let '(p1, y) := pst p o in pout_eqb x y && check_pmodel pst p1 r
   end.
 
+(* the observed Key tag table identifies exactly the keys that the model's key_tag_value identifies *)
+Definition keytags_agree (tbl : list (N * N)) : bool :=
+  forallb (fun a => forallb (fun b => Bool.eqb (N.eqb (snd a) (snd b)) (N.eqb (key_tag_value (fst a)) (key_tag_value (fst b)))) tbl) tbl.
+Definition keytags_injective (tbl : list (N * N)) : bool :=
+  forallb (fun a => forallb (fun b => implb (N.eqb (snd a) (snd b)) (N.eqb (fst a) (fst b))) tbl) tbl.
+
 Definition check_case (c : case) : bool :=
   check_model (prov_of (c_stack c)) (rewrap (c_stack c)) (init (prov_of (c_stack c))) (c_steps c)
   && check_pmodel mem_pstep [] (c_psteps c)
-  && Bool.eqb (spec_agrees (persistent (c_stack c)) (c_conj c) [] (c_steps c) && check_pmodel (pspec_step false) [] (c_psteps c)) (c_oracle c).
+  && Bool.eqb (spec_agrees (persistent (c_stack c)) (c_conj c) [] (c_steps c) && check_pmodel (pspec_step false) [] (c_psteps c)
+              && keytags_agree (c_keytags c)) (c_oracle c).
 
 Fixpoint mismatches_from (i : nat) (cs : list case) : list nat :=
   match cs with
